@@ -15,9 +15,9 @@ Oracle per case
   * no rows exist for a triple that was not given; run() does not raise.
 Nothing is sampled.
 """
-import os, json, itertools, traceback
+import os, json, pickle, struct, itertools, traceback
 
-from vf.core import Check, REPO
+from vf.core import Check, REPO, HarnessError
 
 from coba.context import CobaContext, BasicLogger, NullLogger, MemoryCacher
 from coba.pipes import ListSink
@@ -57,13 +57,14 @@ def faults_for(triples, ks, with_eval=True, fin=False):
     return list(out.values())
 
 
-def reachable(f, t):
+def reachable(f, t, case=None):
     """Reference: is the position of fault f reached inside the evaluation of triple t (run on pristine components)?"""
     e, l, v = t
     fe, fl, fv = f['on']
     at, k = f['at'], f.get('k', 0)
-    if at == 'env.read': return fe == e and k < P.N_ITEMS[e]
-    if at in ('predict', 'learn'): return fe == e and fl == l and k < P.n_calls(at, e, v)
+    long = bool(case and case.get('long'))
+    if at == 'env.read': return fe == e and k < P.n_items(e, long)
+    if at in ('predict', 'learn'): return fe == e and fl == l and k < P.n_calls(at, e, v, long)
     if at == 'evaluate': return (fe, fl, fv) == (e, l, v)
     return False
 
@@ -81,7 +82,7 @@ def cleanup(f, t):
 
 
 def build(case):
-    E, L, V = P.build_components(case.get('faults') or (), case.get('chunk'), bool(case.get('fin')))
+    E, L, V = P.build_components(case.get('faults') or (), case.get('chunk'), bool(case.get('fin')), bool(case.get('long')), tuple(case.get('batch') or ()))
     form = case['form']
     if form == 'triples':
         exp = Experiment([(E[e], L[l], V[v]) for e, l, v in case['triples']])
@@ -137,7 +138,7 @@ def execute(case):
             'finished': [i for i, l in enumerate(L) if l.finished]}
 
 
-def ident_of(t): return (f'E{t[0]}', f'L{t[1]}', f'V{t[2]}')
+def ident_of(t): return (f'E{t[0]}', t[1], f'V{t[2]}')
 
 
 def same_rows(a, b):
@@ -179,7 +180,7 @@ def findings(case, alone):
 
     failing = []
     for t in trip:
-        hit = [f for f in faults if reachable(f, t)]
+        hit = [f for f in faults if reachable(f, t, case)]
         got = rows.get(ident_of(t), [])
         if hit:
             failing.append((t, hit))
@@ -231,6 +232,92 @@ def findings(case, alone):
         if lcount.get(l, 0) > 1:
             out.append(('learner listed in several triples was finished by run()', '', f'learner L{l} is listed in {lcount[l]} triples and finish() was called on the caller\'s object'))
     return out, info
+
+
+# ------------------------------------------------------------------ pristine interpreter state
+
+def alone_case(case, t):
+    """The descriptor of triple t run alone: same tuple style, same kind of environment / learner objects, no fault."""
+    chunk = case.get('chunk')
+    return {'form': 'pairs' if case['form'] == 'pairs' else 'triples',
+            'chunk': 'per-env' if chunk in ('per-env', 'shared') else chunk, 'fin': bool(case.get('fin')), 'long': bool(case.get('long')),
+            'batch': [t[0]] if t[0] in (case.get('batch') or ()) else [], 'triples': [list(t)], 'faults': []}
+
+
+def alone_rows(ex, t):
+    rows = None if 'exc' in ex else ex['rows'].get(ident_of(t)) if set(ex['rows']) <= {ident_of(t)} else None
+    return rows or None
+
+
+def _job_findings(case, refs, after=()):
+    """Runs in a process that has evaluated nothing yet: (optionally some earlier experiments, then) the case."""
+    for h in after: execute(h)
+    return findings(case, lambda c, t: refs.get(json.dumps(alone_case(c, t), sort_keys=True)))
+
+
+JOBS = {'execute': execute, 'findings': _job_findings}
+
+
+class Zygote:
+    """A child process forked before this process has run any experiment.  It never runs one itself: for every request it
+    forks a grandchild that does the work in that pristine interpreter state (no class-level / module-level state left
+    behind by earlier experiments) and sends the result back."""
+
+    def __init__(self):
+        req_r, req_w = os.pipe(); res_r, res_w = os.pipe()
+        pid = os.fork()
+        if pid == 0:
+            code = 0
+            try:
+                os.close(req_w); os.close(res_r)
+                self._serve(os.fdopen(req_r, 'rb'), res_w)
+            except BaseException:      # noqa
+                code = 3
+            finally:
+                os._exit(code)         # no atexit handlers of the harness in this copy
+        os.close(req_r); os.close(res_w)
+        self.pid, self._w, self._r = pid, os.fdopen(req_w, 'wb'), os.fdopen(res_r, 'rb')
+
+    @staticmethod
+    def _send(fd, obj):
+        data = pickle.dumps(obj)
+        data = struct.pack('<Q', len(data)) + data
+        while data: data = data[os.write(fd, data):]
+
+    def _serve(self, rf, res_w):
+        import signal
+        signal.signal(signal.SIGALRM, signal.SIG_DFL)
+        while True:
+            try: name, args = pickle.load(rf)
+            except EOFError: return
+            pid = os.fork()
+            if pid == 0:
+                code = 0
+                try:
+                    try: out = ('ok', JOBS[name](*args))
+                    except BaseException as e:      # noqa
+                        out = ('err', ''.join(traceback.format_exception(type(e), e, e.__traceback__))[-3000:])
+                    self._send(res_w, out)
+                except BaseException:      # noqa
+                    code = 4
+                finally:
+                    os._exit(code)
+            _, status = os.waitpid(pid, 0)
+            if status != 0: self._send(res_w, ('err', f'worker process of the zygote ended with status {status}'))
+
+    def call(self, name, *args):
+        pickle.dump((name, args), self._w); self._w.flush()
+        head = self._r.read(8)
+        if len(head) < 8: raise HarnessError('the zygote process died')
+        kind, val = pickle.loads(self._r.read(struct.unpack('<Q', head)[0]))
+        if kind != 'ok': raise HarnessError('job in the pristine process failed:\n' + val)
+        return val
+
+    def close(self):
+        try: self._w.close(); self._r.close()
+        except Exception: pass      # noqa
+        try: os.waitpid(self.pid, 0)
+        except Exception: pass      # noqa
 
 
 # ------------------------------------------------------------------ the check
@@ -318,6 +405,41 @@ class C03(Check):
         for n in (1, 2):
             for trip in lists(n):
                 yield from expand({'form': 'triples', 'triples': trip, 'quiet': True}, trip, modes=modes[:1] + modes[-1:])
+        # family B: one learner CLASS on batched and on unbatched environments (E0 / E1 / both piped into Batch(2))
+        small = (1, 2) if quick else (1, 2, 3)
+        for n in small:
+            for trip in lists(n):
+                for batch in ([1], [0]) if quick else ([1], [0], [0, 1]):
+                    if not any(t[0] in batch for t in trip): continue
+                    base = {'form': 'triples', 'triples': trip, 'batch': batch}
+                    yield {**base, 'faults': []}
+                    for f in faults_for(trip, ks):
+                        yield {**base, 'faults': [f]}
+        # family C: environments behind coba's Cache filter (Environments.cache() / .chunk()): short environments x every fault,
+        # and a 32-interaction E0 (more than one 25-interaction cache slice) x read faults before / inside / after the first slice
+        for n in small:
+            for trip in lists(n):
+                for wrap in ('cache', 'chunk+cache'):
+                    base = {'form': 'triples', 'triples': trip, 'chunk': wrap}
+                    yield {**base, 'faults': []}
+                    for f in faults_for(trip, ks):
+                        yield {**base, 'faults': [f]}
+        for n in small:
+            for trip in lists(n):
+                if not any(t[0] == 0 for t in trip): continue
+                fs = {}
+                for t in trip:
+                    for at, kk in (('env.read', (0, 1, 24, 25, 26, 30) if t[0] == 0 else (0, 1)), ('predict', (0, 26) if t[0] == 0 else (0,)),
+                                   ('learn', (26,) if t[0] == 0 else ())):
+                        for k in kk:
+                            f = {'at': at, 'k': k, 'on': list(t)}
+                            fs.setdefault(P.fault_text(f), f)
+                for wrap in (None, 'cache', 'chunk+cache'):
+                    base = {'form': 'triples', 'triples': trip, 'long': True}
+                    if wrap: base['chunk'] = wrap
+                    yield {**base, 'faults': []}
+                    for f in fs.values():
+                        yield {**base, 'faults': [f]}
         # 2-tuple lists (default evaluator supplied by coba): lists over the 4 (environment, learner) pairs
         pairs4 = [(e, l, 0) for e in (0, 1) for l in (0, 1)]
         for n in (1, 2, 3) if quick else (1, 2, 3, 4):
@@ -349,87 +471,169 @@ class C03(Check):
     # ---------------------------------------------------------------- execution
 
     def setup(self, tier):
-        self._alone = {}
+        self.teardown()
+        self._zy = Zygote()             # forked BEFORE this process runs its first experiment
+        self._alone = {}                # descriptor of an alone-run -> its rows (computed in pristine processes)
         self._memo = {}
+        self._explained = set()
+        self._history = []
+
+    def teardown(self):
+        zy = getattr(self, '_zy', None)
+        if zy is not None: zy.close()
+        self._zy = None
+
+    def _ensure(self):
+        if getattr(self, '_zy', None) is None: self.setup('quick')
 
     def alone(self, case, t):
-        """Rows of triple t run alone (same tuple style, same kind of environment object, no fault, fresh components);
-        None when that run is unusable."""
-        if not hasattr(self, '_alone'): self._alone = {}
-        key = ('pairs' if case['form'] == 'pairs' else 'triples', 'per-env' if case.get('chunk') else None, bool(case.get('fin')), tuple(t))
+        """Rows of triple t run alone in a process that has evaluated nothing else (same tuple style, same kind of environment
+        and learner objects, no fault, fresh components); None when that run is unusable."""
+        self._ensure()
+        ac = alone_case(case, t)
+        key = json.dumps(ac, sort_keys=True)
         if key not in self._alone:
-            ex = execute({'form': key[0], 'chunk': key[1], 'fin': key[2], 'triples': [list(t)], 'faults': []})
-            rows = None if 'exc' in ex else ex['rows'].get(ident_of(t)) if set(ex['rows']) <= {ident_of(t)} else None
-            self._alone[key] = rows or None
+            self._alone[key] = alone_rows(self._zy.call('execute', ac), tuple(t))
         return self._alone[key]
+
+    def pristine(self, case, after=()):
+        """findings(case) computed in a process that has run nothing before (but `after`)."""
+        self._ensure()
+        for t in triples_of(case): self.alone(case, t)
+        return self._zy.call('findings', case, self._alone, list(after))
 
     def simpler(self, case):
         """Variants of a case with one dimension set to something simpler (used to attribute a violation to its
         simplest form, so that one root cause gets one key whatever other ingredients the violating case had)."""
         faults = case.get('faults') or []
+        drop = lambda *ks: {k: v for k, v in case.items() if k not in ks}
         if len(faults) == 2:
             yield {**case, 'faults': [faults[0]]}
             yield {**case, 'faults': [faults[1]]}
         if len(faults) == 1: yield {**case, 'faults': []}
-        if case.get('fin') and not any(f['at'] == 'lrn.finish' for f in faults): yield {k: v for k, v in case.items() if k != 'fin'}
-        if case.get('mt'): yield {k: v for k, v in case.items() if k != 'mt'}
+        if case.get('fin') and not any(f['at'] == 'lrn.finish' for f in faults): yield drop('fin')
+        if case.get('mt'): yield drop('mt')
+        if case.get('batch'):
+            yield drop('batch')
+            if len(case['batch']) > 1:
+                for e in case['batch']: yield {**case, 'batch': [e]}
         if case.get('chunk'):
-            yield {k: v for k, v in case.items() if k not in ('chunk', 'mt')}
+            yield drop('chunk', 'mt')
             if case['chunk'] == 'shared' and not case.get('mt'): yield {**case, 'chunk': 'per-env'}
-        if case.get('quiet'): yield {k: v for k, v in case.items() if k != 'quiet'}
+            if case['chunk'] == 'chunk+cache':
+                yield {**case, 'chunk': 'cache'}
+                yield {**case, 'chunk': 'per-env'}
+        if case.get('long') and all(f.get('k', 0) < 2 for f in faults): yield drop('long')
+        if case.get('quiet'): yield drop('quiet')
         if case['form'] != 'triples':
-            c = {k: v for k, v in case.items() if k not in ('envs', 'lrns', 'vals')}
+            c = drop('envs', 'lrns', 'vals')
             yield {**c, 'form': 'triples', 'triples': [list(t) for t in triples_of(case)]}
         trip = triples_of(case)
         if case['form'] != 'cross' and len(trip) > 1:
             on = [tuple(f['on']) for f in faults]
             for i in reversed(range(len(trip))):
                 if trip[i] in on: continue
-                yield {**case, 'triples': [list(t) for j, t in enumerate(trip) if j != i]}
+                c = {**case, 'triples': [list(t) for j, t in enumerate(trip) if j != i]}
+                if c.get('batch'):
+                    c['batch'] = [e for e in c['batch'] if any(t[0] == e for t in c['triples'])]
+                    if not c['batch']: del c['batch']
+                yield c
 
-    def examine(self, case, acc, depth=0):
-        """Findings of a case, attributed to the simplest variant that still violates.  -> (violates?, info of the run)."""
-        if not hasattr(self, '_memo'): self._memo = {}
-        key = json.dumps(case, sort_keys=True)
-        if key in self._memo: return self._memo[key]
-        found, info = findings(case, self.alone)
+    @staticmethod
+    def needs(case):
         trip = triples_of(case)
         faults = case.get('faults') or []
-        if len(trip) == 1 and not faults and self.alone(case, trip[0]) is None:
-            found.append(('single triple run alone yields no usable rows', '', f'triple {trip[0]} run alone without faults gives no rows (or raises)'))
-        sig = (tuple(info['statuses']), info['nfault_entries'], info['finish'])
-        self._memo[key] = (bool(found), sig)
-        if not found: return False, sig
-        if depth < 12:
-            for v in self.simpler(case):
-                if self.examine(v, acc, depth + 1)[0]: return True, sig
         needs = []
         if faults:
-            failing = any(reachable(f, t) for f in faults for t in trip)
+            failing = any(reachable(f, t, case) for f in faults for t in trip)
             needs.append('an evaluation fails' if failing else 'a params property raises' if any(f['at'] in PARAM_FAULTS for f in faults)
                          else 'finish() raises' if any(f['at'] == 'lrn.finish' for f in faults) else 'an unreached fault is armed')
         if case.get('fin'): needs.append('learner with a finish() hook')
-        if case.get('chunk'): needs.append('environments piped into a Chunk')
+        if case.get('chunk'): needs.append({'per-env': 'environments piped into a Chunk', 'shared': 'environments piped into a Chunk',
+                                            'cache': 'environments piped into a Cache', 'chunk+cache': 'environments piped into Chunk and Cache'}[case['chunk']])
+        if case.get('batch'): needs.append('a batched environment')
+        if case.get('long'): needs.append('a 32-interaction environment')
         if case.get('mt'): needs.append('maxtasksperchunk>0')
         if case.get('quiet'): needs.append('quiet=True')
         if case['form'] != 'triples': needs.append(f"{case['form']} constructor form")
+        return needs
+
+    def single_alone(self, case, found):
+        trip = triples_of(case)
+        if len(trip) == 1 and not (case.get('faults') or []) and self.alone(case, trip[0]) is None:
+            found.append(('single triple run alone yields no usable rows', '', f'triple {trip[0]} run alone without faults gives no rows (or raises)'))
+
+    def examine(self, case, acc, depth=0):
+        """Findings of a case IN A PRISTINE PROCESS, attributed to the simplest variant that still violates.  -> violates?"""
+        key = json.dumps(case, sort_keys=True)
+        if key in self._memo: return self._memo[key]
+        found, _ = self.pristine(case)
+        self.single_alone(case, found)
+        self._memo[key] = bool(found)
+        if not found: return False
+        if depth < 14:
+            for v in self.simpler(case):
+                if self.examine(v, acc, depth + 1): return True
+        needs = self.needs(case)
         for mode, feat, what in found:
             parts = ([feat] if feat else []) + [n for n in needs if not (feat.startswith('fault at') and n == 'an evaluation fails')]
             acc.violation(f"Experiment.run|{mode}|{'; '.join(parts) or 'any experiment'}", what, witness=case)
-        return True, sig
+        return True
+
+    def contaminated(self, case, found, acc):
+        """The case violates in this process but not in a pristine one: something left behind by the experiments this process ran
+        earlier (state on classes / modules survives fresh objects and deepcopy).  Look for ONE earlier experiment that suffices."""
+        modes = sorted({m for m, _, _ in found})
+        keys = [f"Experiment.run|{m}|only after other experiments have run in the same process" for m in modes]
+        if all(k in self._explained for k in keys): return
+        self._explained.update(keys)
+        cands = []                                  # canonical single-triple experiments first (a deterministic witness), then recent history
+        for fin in (False, True):
+            for batch in ([], [0, 1]):
+                for t in ALL8:
+                    cands.append({'form': 'triples', 'triples': [list(t)], 'faults': [], 'fin': fin, 'batch': batch})
+        cands += list(reversed(self._history[-12:]))
+        after = None
+        for h in cands:
+            if self.pristine(case, [h])[0]:
+                after = [h]; break
+        what = found[0][2] + (f' [in a process that ran {after[0]} before]' if after else ' [after the experiments this worker had run before; no single one of the candidates suffices]')
+        for k in keys:
+            acc.violation(k, what, witness={'after': after, 'case': case} if after else {'after': None, 'case': case})
 
     def run_case(self, case, acc):
+        self._ensure()
+        if not hasattr(self, '_history'): self._history = []
         trip = triples_of(case)
-        violated, sig = self.examine(case, acc)
+        found, info = findings(case, self.alone)          # in THIS process, after everything it has run so far
+        self.single_alone(case, found)
+        violated = bool(found)
+        if found:
+            if not self.examine(case, acc):
+                self.contaminated(case, found, acc)
+        self._history.append(case)
+        if len(self._history) > 64: del self._history[:32]
+        sig = (tuple(info['statuses']), info['nfault_entries'], info['finish'])
         acc.count('experiment_runs')
         acc.count('triples_checked', len(trip))
         lcount = {}
         for t in trip: lcount[t[1]] = lcount.get(t[1], 0) + 1
-        reached = sum(1 for t in trip if any(reachable(f, t) for f in case.get('faults') or []))
+        reached = sum(1 for t in trip if any(reachable(f, t, case) for f in case.get('faults') or []))
         acc.count('failing_evaluations', reached)
         if len(trip) >= 2 and (max(lcount.values()) > 1 or reached > 0): acc.mark_nontrivial()
         if violated: acc.count('violating_cases')
         acc.outcome((sig, violated))
+
+    def replay(self, witness, acc):
+        if isinstance(witness, dict) and 'after' in witness:
+            self._ensure()
+            case, after = witness['case'], witness['after'] or []
+            found, _ = self.pristine(case, after)
+            if found and not self.pristine(case)[0]:
+                for m in sorted({m for m, _, _ in found}):
+                    acc.violation(f"Experiment.run|{m}|only after other experiments have run in the same process", found[0][2], witness=witness)
+            return
+        return self.run_case(witness, acc)
 
 
 CHECK = C03()
